@@ -178,6 +178,12 @@ theorem C06_fixed_copy_struct_reg_12 :
     PsABI.ret (some structFFF) = .regs [.xmm0, .xmm1] ∧ PsABI.ret (some structFFD) = .regs [.xmm0, .xmm1] ∧
     PsABI.ret (some structDF) = .regs [.xmm0, .xmm1] := by decide
 
+/-- the pre-fix load of the second eightbyte (8 bytes at offset 8) reaches byte 15 of the 12-byte object; the repaired ladder
+    reads bytes 0..11 (`C06_struct_return_bytes`) -/
+theorem C06_fixed_copy_struct_reg_12_overread :
+    15 ∈ (RetOp.fpLoad 8 8 1).bytes ∧ ¬ (15 < structFFF.size) ∧
+    (copyStructRegOps structFFF).flatMap RetOp.bytes = [0, 1, 2, 3, 4, 5, 6, 7, 8, 9, 10, 11] := by decide
+
 /-! ### return values
 
 Not defects: the witness that `C06_return_extension` cannot be strengthened to "%rax is the sign extension to 64 bits" (so a
